@@ -11,6 +11,10 @@ COMMON_ASSUMPTIONS = [
     "exploration only: held on every generated case, no claim about inputs that were not generated",
 ]
 
+import os as _os
+# wall-clock seconds of each native fuzz campaign in the thorough tier (coverage-guided; cannot be pinned by VERIF_SEED)
+FUZZ_SECONDS = int(_os.environ.get("VERIF_FUZZ_SECONDS", "120"))
+
 PLAN = {}
 MANIFEST_TEXT = {}
 
@@ -22,6 +26,7 @@ PLAN["C04"] = {
         {"name": "TestDirectCalls", "quick": (1600000, 8), "thorough": (48000000, 16)},
         {"name": "TestExprEval", "quick": (400000, 4), "thorough": (12000000, 16)},
         {"name": "TestTemplates", "quick": (400000, 4), "thorough": (12000000, 16)},
+        {"name": "FuzzTemplate", "fuzz": True, "thorough": (FUZZ_SECONDS, 16)},
     ],
     "budget": {"quick": 600, "thorough": 5400},
     "rule": "cases: (a) direct calls of every registered function/router test (enumerated from the registry at run time) "
@@ -47,6 +52,7 @@ PLAN["C12"] = {
     "pkg": "c12",
     "tests": [
         {"name": "TestLiteralText", "quick": (400000, 8), "thorough": (16000000, 16)},
+        {"name": "FuzzLiteral", "fuzz": True, "thorough": (FUZZ_SECONDS, 16)},
     ],
     "budget": {"quick": 600, "thorough": 5400},
     "rule": "templates assembled from segments whose rendering is known by construction (plain text, @@, @+non-name rune, trailing @, "
@@ -69,6 +75,8 @@ PLAN["C14"] = {
         {"name": "TestQueryTextRoundTrip", "quick": (800000, 8), "thorough": (8000000, 16)},
         {"name": "TestBuiltQueryRoundTrip", "quick": (400000, 4), "thorough": (6000000, 16)},
         {"name": "TestInjection", "quick": (400000, 4), "thorough": (6000000, 16)},
+        {"name": "FuzzQuery", "fuzz": True, "thorough": (FUZZ_SECONDS, 16)},
+        {"name": "FuzzInjection", "fuzz": True, "thorough": (FUZZ_SECONDS, 16)},
     ],
     "budget": {"quick": 600, "thorough": 5400},
     "rule": "(a) query text drawn from the ContactQL grammar (implicit conditions, all comparators and aliases, nested AND/OR/implicit-AND, "
@@ -454,6 +462,7 @@ PLAN["C16"] = {
         {"name": "TestVersionMigration", "quick": (24000, 8), "thorough": (1600000, 16)},
         {"name": "TestLegacyMigration", "quick": (24000, 4), "thorough": (1600000, 16)},
         {"name": "TestHostileDefinitions", "quick": (40000, 4), "thorough": (3200000, 16)},
+        {"name": "FuzzReadFlow", "fuzz": True, "thorough": (FUZZ_SECONDS, 16)},
     ],
     "budget": {"quick": 600, "thorough": 5400},
     "rule": "(a,c) flows from the world generator (all action/router/wait types, localization in fra/spa) rewritten into the shape of each "
